@@ -750,13 +750,40 @@ async fn run_big_request(case: &Value) -> Value {
     let ep = lis.endpoint.clone();
     let pw = lis.ssh_password.clone();
     let p2 = payload.clone();
+    let pipelined = case["pipelined"].as_bool().unwrap_or(false);
     let cl = tokio::spawn(async move {
-        async fn go<T: netconf::transport::Transport + 'static>(s: Result<Session<T>, netconf::Error>, payload: String) -> Value {
+        async fn go<T: netconf::transport::Transport + 'static>(s: Result<Session<T>, netconf::Error>, payload: String, pipelined: bool) -> Value {
             let mut s = match s {
                 Ok(s) => s,
                 Err(e) => return json!({"establish": format!("{e:?}")}),
             };
             let to = Duration::from_secs(8);
+            if pipelined {
+                // the small request is handed over directly behind the large one, before the
+                // large one has been answered (and, on a transport that queues, before it has
+                // been written out)
+                let fb = tokio::time::timeout(to, s.rpc::<LoadConfiguration<Config<String, Text, Merge>>, _>(|b| b.source(Config::new(payload, Text, Merge)).finish())).await;
+                let fs = tokio::time::timeout(to, s.rpc::<Get, _>(|b| b.finish())).await;
+                let big = match fb {
+                    Ok(Ok(f)) => match tokio::time::timeout(to, f).await {
+                        Ok(Ok(())) => "ok".to_string(),
+                        Ok(Err(e)) => format!("err:{e:?}"),
+                        Err(_) => "reply-timeout".into(),
+                    },
+                    Ok(Err(e)) => format!("send-err:{e:?}"),
+                    Err(_) => "send-timeout".into(),
+                };
+                let small = match fs {
+                    Ok(Ok(f)) => match tokio::time::timeout(to, f).await {
+                        Ok(Ok(v)) => format!("ok:{v}"),
+                        Ok(Err(e)) => format!("err:{e:?}"),
+                        Err(_) => "timeout".into(),
+                    },
+                    Ok(Err(e)) => format!("send-err:{e:?}"),
+                    Err(_) => "send-timeout".into(),
+                };
+                return json!({"establish": "ok", "big": big, "small": small});
+            }
             let big = match tokio::time::timeout(to, s.rpc::<LoadConfiguration<Config<String, Text, Merge>>, _>(|b| b.source(Config::new(payload, Text, Merge)).finish())).await {
                 Ok(Ok(f)) => match tokio::time::timeout(to, f).await {
                     Ok(Ok(())) => "ok".to_string(),
@@ -781,18 +808,18 @@ async fn run_big_request(case: &Value) -> Value {
         let to = Duration::from_secs(6);
         match (tr, ep) {
             (Tr::Tls, Endpoint::Tcp(p)) => match tokio::time::timeout(to, connect_tls(p)).await {
-                Ok(s) => go(s, p2).await,
+                Ok(s) => go(s, p2, pipelined).await,
                 Err(_) => json!({"establish": "TIMEOUT"}),
             },
             (Tr::Ssh, Endpoint::Tcp(p)) => match tokio::time::timeout(to, Session::ssh(("127.0.0.1", p), "vh".to_string(), pw.parse().unwrap())).await {
-                Ok(s) => go(s, p2).await,
+                Ok(s) => go(s, p2, pipelined).await,
                 Err(_) => json!({"establish": "TIMEOUT"}),
             },
             (Tr::Cli, Endpoint::Unix(path)) => {
                 let exe = std::env::current_exe().unwrap().to_string_lossy().into_owned();
                 let p = path.to_string_lossy().into_owned();
                 match tokio::time::timeout(to, Session::verif_junos_local(&exe, &["fake-cli", &p])).await {
-                    Ok(s) => go(s, p2).await,
+                    Ok(s) => go(s, p2, pipelined).await,
                     Err(_) => json!({"establish": "TIMEOUT"}),
                 }
             }
@@ -810,6 +837,10 @@ async fn run_big_request(case: &Value) -> Value {
     let have = crate::realwire::delimiter_ends(&from_client).len();
     let mut symptoms: Vec<String> = Vec::new();
     if have >= 2 {
+        if pipelined {
+            // both requests are on their way: take them in before answering either
+            let _ = conn.read_messages(&mut from_client, 3, Duration::from_secs(6)).await;
+        }
         let _ = conn.send_unit(format!("<rpc-reply xmlns=\"{}\" message-id=\"1\"><load-configuration-results><ok/></load-configuration-results></rpc-reply>{MARKER}", crate::memwire::BASE_NS).as_bytes()).await;
         let _ = conn.read_messages(&mut from_client, 3, Duration::from_secs(6)).await;
         let _ = conn.send_unit(&reply_bytes(2, "tag-2", 0, false)).await;
